@@ -333,6 +333,8 @@ def body_project(c, ctx):
             raise Unsupported('trace projection is an identity only if every facet-attached DOF acts on the trace (Lagrange-type)')
         bf = m.boundary_facets()
         F = np.array(sorted({int(bf[int(q) % len(bf)]) for q in c['picks']}), dtype=np.int32)
+        if where == 'facets_kw' and c['picks'][0] % 2 == 0:
+            F = bf.copy()          # a closed set by construction (the claim below is restricted to closed sets)
         whole = CellBasis(m, build_element(eld), intorder=io)
         dofs = whole.get_dofs(F).flatten()
         z = np.zeros(whole.N)
